@@ -7,15 +7,17 @@ Model of the node state machine's switching core (isaac/states/states.go):
 -/
 namespace Mitum.States
 
-inductive S | stopped | booting | joining | consensus | syncing | handover | broken
+/-- `unknown` stands for a target state no handler is registered for (it is never the current state) -/
+inductive S | stopped | booting | joining | consensus | syncing | handover | broken | unknown
 deriving Repr, DecidableEq
 
-inductive Check | ok | ignore | redirect (next : S)
+inductive Check | ok | ignore | redirect (next : S) | error
 deriving Repr, DecidableEq
 
 /-- `checkStateSwitchContext(sctx, current)` with `HandoverYBroker() == nil` -/
 def check (allowed : Bool) (cur frm next : S) : Check :=
   if cur = .stopped ∧ next ≠ .booting ∧ next ≠ .broken then .ignore
+  else if next = .unknown then .error                     -- "unknown next state": a plain error, before the origin is looked at
   else if next = cur then .ignore
   else if frm ≠ cur then .ignore
   else if next = .broken then .ok
@@ -49,6 +51,7 @@ deriving Repr, DecidableEq
 def switchState (sc : Script) (m : M) (frm next : S) : M × SwitchRes :=
   match check m.allowed m.cur frm next with
   | .ignore => (m, .done)
+  | .error => (m, .error)
   | c =>
     let (f, n) : S × S := match c with | .redirect r => (m.cur, r) | _ => (frm, next)
     -- exitAndEnter
